@@ -195,6 +195,11 @@ class NixList(TypedExpression):
             return expr.rebuild(indent=indented, inline=not multiline)
 
         items = [render_item(item) for item in self.value]
+        if not multiline and any("\n" in item for item in items):
+            # A one-line list whose item spans lines is read back as multi-line.
+            multiline = True
+            indented = indent + 2
+            items = [render_item(item) for item in self.value]
 
         if multiline:
             # Add proper indentation for multiline lists
